@@ -28,6 +28,7 @@ OPS = [
     ('combine-sibling', None, None), ('combine-into-ancestor', None, None),
     ('chef', 'keep-all', None), ('chef', 'keep-first', None), ('chef', 'keep-none', None),
     ('chef', 'keep-last', 2), ('chef', 'keep-first', 2),
+    ('combine-sibling-limited', None, None), ('combine-into-ancestor-limited', None, None),
 ]
 
 
@@ -43,6 +44,16 @@ def pure(op, E, P0, Q):
         if not new or Q.nlev != E.nlev:
             return None, None
         return outcheck.concat_fields(E, outcheck.select_fields(Q, [Q.fields.index(f) for f in new])), None
+    if kind in ('combine-sibling-limited', 'combine-into-ancestor-limited'):
+        # after a level-limited strain: the deeper partner is opened with the same limit
+        O = Q if kind == 'combine-sibling-limited' else P0
+        if not E.nlev < O.nlev:
+            return None, None
+        if kind == 'combine-sibling-limited':
+            new = [f for f in O.fields if f not in E.fields]
+            return (outcheck.concat_fields(E, outcheck.select_fields(O, [O.fields.index(f) for f in new], nlev=E.nlev)), E.nlev - 1) if new else (None, None)
+        new = [f for f in E.fields if f not in O.fields]
+        return (outcheck.concat_fields(outcheck.select_fields(O, list(range(len(O.fields))), nlev=E.nlev), outcheck.select_fields(E, [E.fields.index(f) for f in new])), E.nlev - 1) if new else (None, None)
     if kind == 'combine-into-ancestor':
         new = [f for f in E.fields if f not in P0.fields]
         if not new or P0.nlev != E.nlev:
@@ -87,6 +98,10 @@ def apply(mods, op, cur, out, aux, retained=None):
         mods['amr_kitchen.combine.combine'].combine(PC(cur), PC('sib'), pltout=out)
     elif kind == 'combine-into-ancestor':
         mods['amr_kitchen.combine.combine'].combine(PC('p0'), PC(cur), pltout=out)
+    elif kind == 'combine-sibling-limited':
+        mods['amr_kitchen.combine.combine'].combine(PC(cur), PC0('sib', limit_level=aux), pltout=out)
+    elif kind == 'combine-into-ancestor-limited':
+        mods['amr_kitchen.combine.combine'].combine(PC0('p0', limit_level=aux), PC(cur), pltout=out)
     elif kind == 'chef':
         ch = mods['amr_kitchen.chef.chef'].Chef(plotfile=cur, recipe=RECIPE if b is None else RECIPE2, outfile=out, serial=(a != 'keep-all'), kept_fields=' '.join(aux) if aux else None)
         ch.recipe.__globals__['np'] = npfacade.facade
@@ -211,7 +226,7 @@ def make_replay(P0ref, Qref, v):
     E = outcheck.from_ref(P0ref)
     P0, Q = outcheck.from_ref(P0ref), outcheck.from_ref(Qref)
     lines = ["from amr_kitchen.colander.colander import Colander", "from amr_kitchen.combine.combine import combine", "from amr_kitchen.chef.chef import Chef",
-             "from amr_kitchen import PlotfileCooker", "from amr_kitchen.taste.taste import Taster", "import contextlib, io", "os.chdir(IN)", "cur = 'p0'", "STEPS = []"]
+             "from amr_kitchen import PlotfileCooker", "from amr_kitchen.taste.taste import Taster", "import contextlib, io", "os.chdir(IN)", "cur = 'p0'", "STEPS = []", "_PC = PlotfileCooker"]
     if v.get('retain'):
         lines += ["_PC0, _kept = PlotfileCooker, {}", "def PlotfileCooker(path):", "    if path not in _kept:", "        _kept[path] = _PC0(path)", "    return _kept[path]"]
     steps = []
@@ -229,6 +244,10 @@ def make_replay(P0ref, Qref, v):
             lines.append("    combine(PlotfileCooker(cur), PlotfileCooker('sib'), pltout=%r)" % out)
         elif kind == 'combine-into-ancestor':
             lines.append("    combine(PlotfileCooker('p0'), PlotfileCooker(cur), pltout=%r)" % out)
+        elif kind == 'combine-sibling-limited':
+            lines.append("    combine(PlotfileCooker(cur), _PC('sib', limit_level=%r), pltout=%r)" % (aux, out))
+        elif kind == 'combine-into-ancestor-limited':
+            lines.append("    combine(_PC('p0', limit_level=%r), PlotfileCooker(cur), pltout=%r)" % (aux, out))
         else:
             lines.append("    Chef(plotfile=cur, recipe=%r, outfile=%r, serial=%r, kept_fields=%r).cook()" % (RECIPE if b is None else RECIPE2, out, a != 'keep-all', ' '.join(aux) if aux else None))
         lines.append("cur = %r" % out)
@@ -272,7 +291,7 @@ def main():
     rep = common.Report('C14')
     common.clear_replays('C14')
     rep.rule = ('operation instances: colander x {all, reversed, first field, all @ limit 0, last two @ limit 0}, combine x {with a sibling on the same mesh with another layout, '
-                'into the original ancestor}, chef(user recipe) x {keep all, keep first, keep none} and chef(second recipe) x {keep last, keep first}; every sequence of length 1 and 2 over the 12 instances on a 2-level mesh, '
+                'into the original ancestor; after a level-limited strain also with the deeper sibling / ancestor opened at the same limit}, chef(user recipe) x {keep all, keep first, keep none} and chef(second recipe) x {keep last, keep first}; every sequence of length 1 and 2 over the 14 instances on a 2-level mesh, '
                 'seeded sequences of length 3-4 on two meshes; operations that are not applicable at a point of the history (no new field to combine, field already cooked) are skipped')
     rep.assumptions = ['payload symbolic: moved data are identity obligations, cooked fields polynomial identities; header numbers compared after parsing',
                        'one geometry is non-dyadic (0.1, 0.002 ...): tools only copy header numbers, so str(float) round trips are exercised']
